@@ -9,6 +9,8 @@ thread_local! {
 }
 
 static VERBOSE_PANICS: AtomicBool = AtomicBool::new(false);
+/// last panic on any thread (diagnostics for uncaught worker panics only)
+pub static LAST_ANY: std::sync::Mutex<Option<String>> = std::sync::Mutex::new(None);
 
 /// Panics inside the subject are *outcomes* here (caught with `catch_unwind`), so the default
 /// hook's stderr output is replaced by a per-thread record of (message, source file).
@@ -30,6 +32,9 @@ pub fn install_panic_capture(verbose: bool) {
             .unwrap_or_else(|| ("<unknown>".into(), 0));
         if VERBOSE_PANICS.load(Ordering::Relaxed) || msg.starts_with("MACHINERY") {
             eprintln!("panic: {msg} at {file}:{line}");
+        }
+        if let Ok(mut g) = LAST_ANY.lock() {
+            *g = Some(format!("{msg} at {file}:{line}"));
         }
         LAST_PANIC.with(|p| *p.borrow_mut() = Some((msg, format!("{file}:{line}"))));
     }));
